@@ -188,6 +188,11 @@ func (fst *FSTree) Query(q *query.Query, local, internal bool) (*iterator.Iterat
 	switch {
 	case err == nil && fileInfo.IsDir():
 		walkRoot = walkPrefix
+		// A prefix that does not end at a path boundary also matches the
+		// siblings of the directory that share it.
+		if p := q.DatabaseKeyPrefix(); p != "" && !strings.HasSuffix(p, "/") {
+			walkRoot = filepath.Dir(walkPrefix)
+		}
 	case err == nil:
 		walkRoot = filepath.Dir(walkPrefix)
 	case errors.Is(err, fs.ErrNotExist):
